@@ -156,7 +156,7 @@ def replay(args):
                                  b.calculate_likelihood_and_derivatives(x, scaled=True, hessian=True, bhhh=True), tot2, div=float(n_rows))
             # likelihood = sum over rows of weight x simulated per-row value
             for p, pt in enumerate(POINTS):
-                sim = b.simulate({'b1': float(pt[0]), 'b2': float(pt[1])})
+                sim = b.simulate({'b2': float(pt[1]), 'b1': float(pt[0])})     # the dictionary is not written in the sorted order of the names
                 per_row = sim[lkey].tolist()
                 n += 1
                 if per_row != [float(v) for v in rec['per_row'][p]]:
